@@ -833,12 +833,18 @@ func c09R5(p *core.Program, r *core.Report, sc *scanClosure) {
 	// the verb switch is reached only after '%': enclosing clause of the outer switch
 	path := core.PathTo(sc.f.Body, sw)
 	inPercent := false
-	for _, n := range path {
+	for i, n := range path {
 		if cc, ok := n.(*ast.CaseClause); ok {
 			for _, e := range cc.List {
 				if constIs(info, e, '%') {
 					inPercent = true
 				}
+			}
+		}
+		// the dispatch spelled `if c == '%' { … } else { … }`: the verb switch is in the then-branch
+		if ifs, ok := n.(*ast.IfStmt); ok && i+1 < len(path) && path[i+1] == ast.Node(ifs.Body) {
+			if v, known := varEqConst(info, cfgx.Fact{Cond: ifs.Cond, Val: true}, sc.cursor, '%'); known && v {
+				inPercent = true
 			}
 		}
 	}
